@@ -18,6 +18,13 @@
 typedef struct dir_stack_t {
 	struct dir_stack_t *next;
 	sqfs_dir_iterator_t *dir;
+
+	/* identity of the directory, to detect loops (has_id is false for
+	   the directory the iteration started from, its identity is unknown) */
+	bool has_id;
+	sqfs_u64 dev;
+	sqfs_u64 inode;
+
 	char name[];
 } dir_stack_t;
 
@@ -146,6 +153,15 @@ static int next(sqfs_dir_iterator_t *base, sqfs_dir_entry_t **out)
 		const char *name = strrchr(ent->name, '/');
 		name = (name == NULL) ? ent->name : (name + 1);
 
+		/* never descend into a directory we are already inside of */
+		for (dir_stack_t *sit = it->top; sit != NULL; sit = sit->next) {
+			if (sit->has_id && sit->dev == ent->dev &&
+			    sit->inode == ent->inode) {
+				ret = SQFS_ERROR_LINK_LOOP;
+				goto fail;
+			}
+		}
+
 		ret = it->top->dir->open_subdir(it->top->dir, &sub);
 		if (ret != 0)
 			goto fail;
@@ -160,6 +176,10 @@ static int next(sqfs_dir_iterator_t *base, sqfs_dir_entry_t **out)
 
 		strcpy(it->next_top->name, name);
 		it->next_top->dir = sub;
+		/* iterators that do not know an identity leave both at 0 */
+		it->next_top->has_id = (ent->dev != 0 || ent->inode != 0);
+		it->next_top->dev = ent->dev;
+		it->next_top->inode = ent->inode;
 	}
 
 	*out = ent;
